@@ -348,7 +348,9 @@ def exec (env : Env) (line : String) : String :=
       let cfg := cfgOf as
       let (ws, title) := wordsAndTitle as
       let list : Option WordList :=
-        if (arg as "words") == "nil" then none else (newListOf env as ws title).map (·.1)
+        if (arg as "words") == "nil" then none
+        else if (arg as "words") == "@zero" then some { words := [], unCap := 0 }   -- the zero value `WordList{}`
+        else (newListOf env as ws title).map (·.1)
       let r : WLRecipe := { list := list, length := argInt as "L", sepChar := sepCharOf (parseSep (arg as "sep")) (parseCps (arg as "sepchar")), sepFunc := sepField (parseSep (arg as "sep")),
                             capitalize := strOfCps (parseCps (arg as "cap")) }
       let tape := parseCps (arg as "tape")
